@@ -2,5 +2,10 @@
 # MANIFEST.setup_cmd: offline build of the Lean model, the driver executable and the proofs, then the axiom audit.
 cd "$(dirname "$0")" || exit 2
 set -e
-(cd lean && lake build)
+mkdir -p lean/.lake
+if command -v flock >/dev/null 2>&1; then
+  flock lean/.lake/verif.lock sh -c 'cd lean && lake build'
+else
+  (cd lean && lake build)
+fi
 PYTHONDONTWRITEBYTECODE=1 /venv/bin/python harness/vcheck.py --audit-all
